@@ -61,6 +61,9 @@ pub fn seed32() -> impl Strategy<Value = Hex> {
         8 => bytes_exact(32),
         1 => Just(Hex(vec![0u8; 32])),
         1 => Just(Hex(vec![0xffu8; 32])),
+        // seeds people type in: one repeated byte, counting up / down with a constant step
+        1 => any::<u8>().prop_map(|b| Hex(vec![b; 32])),
+        1 => (any::<u8>(), prop_oneof![Just(1u8), Just(255u8), Just(2u8), Just(16u8), Just(17u8), any::<u8>()]).prop_map(|(start, step)| Hex((0..32u8).map(|i| start.wrapping_add(i.wrapping_mul(step))).collect())),
         // RFC 8032 test vector 1 and 2 seeds
         1 => Just(Hex(unhex("9d61b19deffd5a60ba844af492ec2cc44449c5697b326919703bac031cae7f60"))),
         1 => Just(Hex(unhex("4ccd089b28ff96da9db6c346ec114e0f5b8a319f35aba624da8cf6ed4fb8a6fb"))),
